@@ -13,6 +13,7 @@ import (
 
 	"mcverif/engine"
 	"mcverif/gen"
+	"mcverif/props/c13"
 )
 
 var Spec = engine.Spec{
@@ -165,6 +166,7 @@ func Run(c *engine.Ctx) {
 	if c.Thorough() {
 		maxDev = 3
 	}
+	crafted(c, fds)
 	for _, b := range bases() {
 		b := b
 		depth := 2
@@ -214,6 +216,24 @@ func Run(c *engine.Ctx) {
 	}
 }
 
+// crafted: pairs that the flattened equality encoding cannot tell apart (C13's known findings) differ in content
+// and must be reported by Diff with the right count and a working reconstruction.
+func crafted(c *engine.Ctx, fds []protoreflect.FieldDescriptor) {
+	c.Group("encoding-collisions")
+	for pi, pr := range c13.CraftedPairs() {
+		for dir := 0; dir < 2; dir++ {
+			pi, pr, dir := pi, pr, dir
+			c.Case(func() any { return map[string]any{"crafted-pair": pi, "reverse": dir == 1} }, func(t *engine.T) *engine.Violation {
+				a, b := proto.Clone(pr[0]).(*sbom.Node), proto.Clone(pr[1]).(*sbom.Node)
+				if dir == 1 {
+					a, b = b, a
+				}
+				return diffCase(t, fds, a, b, fmt.Sprintf("crafted%d-%d", pi, dir))
+			})
+		}
+	}
+}
+
 func applyAll(n *sbom.Node, devs []gen.Deviation, idx []int) (ok bool) {
 	defer func() {
 		if r := recover(); r != nil {
@@ -244,7 +264,9 @@ func diffCase(t *engine.T, fds []protoreflect.FieldDescriptor, n1, n2 *sbom.Node
 		}
 	} else {
 		if d == nil {
-			return engine.Violate("diff-complete", "", "attributes %v differ but Diff returned nil", differing)
+			// nested persons / external references are identified by their flattened encoding: values that contain the
+			// encoding's separators inherit C13's known finding
+			return engine.Violate("diff-complete", c13.EncodingCollisionTrigger(n1, n2), "attributes %v differ but Diff returned nil", differing)
 		}
 		if d.DiffCount != want {
 			return engine.Violate("diff-count", "", "attributes %v differ (%d) but DiffCount=%d", differing, want, d.DiffCount)
